@@ -13,4 +13,15 @@ def intrinsic(it, name, a):
             if not p.is_const(): raise Unsupported("vpermd with a symbolic index vector")
             out.append(src[p.cval() & 7])
         return out
+    if name in ("llvm.x86.avx512.vpmadd52l.uq.256", "llvm.x86.avx512.vpmadd52h.uq.256", "llvm.x86.avx512.vpmadd52l.uq.512", "llvm.x86.avx512.vpmadd52h.uq.512"):
+        # vpmadd52{l,h}uq z, x, y: per 64-bit lane  z + (low|high 52 bits of the 104-bit product of the low 52 bits of x and y), wrapping at 2^64
+        hi = ".vpmadd52h." in name
+        out = []
+        for z, x, y in zip(a[0], a[1], a[2]):
+            if z is UNDEF or x is UNDEF or y is UNDEF: out.append(UNDEF); continue
+            x52 = it.P(it.mk_slice(x, 0, 52)); y52 = it.P(it.mk_slice(y, 0, 52))
+            prod = x52 * y52
+            part = it.P(it.mk_slice(prod, 52, 104)) if hi else it.P(it.mk_slice(prod, 0, 52))
+            out.append(it.wrapv(it.P(z) + part, 64))
+        return out
     raise Unsupported("intrinsic " + name)
